@@ -42,6 +42,7 @@ import gc
 import multiprocessing
 import os
 import random
+import re
 
 import common
 from common import Prop
@@ -835,6 +836,87 @@ def realtime_blocking_target(hold):
     return v
 
 
+def realtime_raising_target(cfg="11", fail_at=2):
+    """real threads: the target raises in its `fail_at`-th call of the first run (the worker thread dies with the
+    exception, as any Python thread does); then stop(); start(): the second run is a run like any other — init (when
+    given) is called once before its first target call, the worker is alive and calls target again; then stop()
+    returns with the worker dead and no target call in progress.  Only clauses the property states for every run are
+    judged; what becomes of `final` in the run that died is not."""
+    import threading
+    import time
+    from nxslib.thread import ThreadCommon
+    ev = []
+    lock = threading.Lock()
+    n = {"target": 0, "in": 0}
+
+    def emit(x):
+        with lock:
+            ev.append(x)
+
+    def target():
+        with lock:
+            n["target"] += 1
+            k = n["target"]
+            n["in"] += 1
+        try:
+            emit("target")
+            if k == fail_at:
+                raise RuntimeError("target failed (harness: C13 raising-target scenario)")
+            time.sleep(0.002)
+        finally:
+            with lock:
+                n["in"] -= 1
+
+    wi, wf = cfg[0] == "1", cfg[1] == "1"
+    t = ThreadCommon(target, init=(lambda: emit("init")) if wi else None, final=(lambda: emit("final")) if wf else None)
+    hook = threading.excepthook
+    threading.excepthook = lambda a: None       # the expected traceback of the dying worker is not printed
+    case = f"real-time raising target cfg={cfg} fail_at={fail_at}"
+
+    def bad(key, what, exp, obs):
+        return {"key": key, "what": what, "expected": exp, "observed": obs, "case": case, "events": list(ev)[:40]}
+    try:
+        t.thread_start()
+        t0 = time.time()
+        while t.thread_is_alive() and time.time() - t0 < 10:
+            time.sleep(0.005)
+        if t.thread_is_alive():
+            t.thread_stop()
+            return None                       # the target never raised (cannot happen); nothing to judge
+        t.thread_stop()
+        with lock:
+            mark = len(ev)
+            ev.append("RESTART")
+        t.thread_start()
+        t0 = time.time()
+        while time.time() - t0 < 10:
+            with lock:
+                if "target" in ev[mark + 1:]:
+                    break
+            time.sleep(0.005)
+        alive = t.thread_is_alive()
+        t.thread_stop()
+        with lock:
+            run2 = ev[mark + 1:]
+            running = n["in"]
+        if "target" not in run2 or not alive:
+            return bad("rt-restart-after-failed-target", "after the worker died in a raising target call, stop() and start() did "
+                       "not give a live worker that calls target again", "alive, target called", f"alive={alive} events={run2[:8]}")
+        if running or t.thread_is_alive():
+            return bad("rt-target-running-after-stop", "stop() returned with the worker alive / a target call in progress",
+                       "dead, 0", f"alive={t.thread_is_alive()} in progress={running}")
+        first = run2.index("target")
+        inits = run2[:first].count("init")
+        if inits != (1 if wi else 0) or run2.count("init") != (1 if wi else 0):
+            return bad("rt-init-per-run", "the run started after a run that ended in a raising target call: init must be called "
+                       "once before the first target call of that run (never, when no init is given)",
+                       f"{1 if wi else 0} init before the first target call, {1 if wi else 0} in the run",
+                       f"{inits} before the first target call, {run2.count('init')} in the run: {run2[:6]}")
+        return None
+    finally:
+        threading.excepthook = hook
+
+
 class C13(Prop):
     id = "C13"
     lean_module = "NxsModel.Props.C13"
@@ -1016,9 +1098,16 @@ class C13(Prop):
         """real threads, real time: a target call that is still running long after the stop request (a legal
         blocking callback). stop() must not return while it runs; afterwards the worker must be dead and a
         restart must not give two concurrent workers."""
-        return [v for v in [realtime_blocking_target(4.0)] if v]
+        vs = [realtime_blocking_target(4.0)]
+        for cfg in ("11", "10", "01", "00"):
+            for k in (1, 2, 5):
+                vs.append(realtime_raising_target(cfg, k))
+        return [v for v in vs if v]
 
     def replay(self, obj):
+        if obj.get("key", "") in ("rt-restart-after-failed-target", "rt-init-per-run") or "raising target" in str(obj.get("case", "")):
+            m = re.search(r"cfg=(\d\d) fail_at=(\d+)", str(obj.get("case", "")))
+            return realtime_raising_target(m.group(1), int(m.group(2))) if m else realtime_raising_target()
         if obj.get("key", "").startswith("rt-"):
             return realtime_blocking_target(4.0)
         return self.oracle(obj["case"])
